@@ -120,7 +120,11 @@ func (a *AddressDecMap) Decode(r stdio.Reader) (err error) {
 	if err := perunio.Decode(r, &mapLen); err != nil {
 		return errors.WithMessage(err, "decoding map length")
 	}
-	*a = make(map[wallet.BackendID]Address, mapLen)
+	if mapLen < 0 {
+		return errors.Errorf("negative map length: %d", mapLen)
+	}
+	// The declared length comes from the wire: do not pre-allocate from it.
+	*a = make(map[wallet.BackendID]Address)
 	for i := range mapLen {
 		var idx int32
 		if err := perunio.Decode(r, &idx); err != nil {
@@ -142,11 +146,17 @@ func (a *AddressMapArray) Decode(r stdio.Reader) (err error) {
 	if err := perunio.Decode(r, &mapLen); err != nil {
 		return errors.WithMessage(err, "decoding array length")
 	}
-	*a = make([]map[wallet.BackendID]Address, mapLen)
+	if mapLen < 0 {
+		return errors.Errorf("negative array length: %d", mapLen)
+	}
+	// The declared length comes from the wire: do not pre-allocate from it.
+	*a = make([]map[wallet.BackendID]Address, 0)
 	for i := range mapLen {
-		if err := perunio.Decode(r, (*AddressDecMap)(&(*a)[i])); err != nil {
+		var m AddressDecMap
+		if err := perunio.Decode(r, &m); err != nil {
 			return errors.WithMessagef(err, "decoding %d-th address map entry", i)
 		}
+		*a = append(*a, m)
 	}
 	return nil
 }
